@@ -82,6 +82,13 @@ CHECKS = {
              "are unchanged, and a battery of valid operations returns identical terms before and after. Exemptions are asserted to be accepted.",
         note="cross-type pairs: 420 seeded (quick), all 191x190 type pairs with the first unit of each + 3000 seeded (thorough); Unknown type not asserted",
         ref="DESIGN.md §4 C05"),
+    "C06": dict(
+        text="Every row of the table whose symbol the unit grammar decomposes into registered symbols (about 900) and every SI-prefixed row matched by symbol and "
+             "name (about 110): z3 proves for ALL amounts that tobase_named(x)-tobase_named(0) equals x times the product of the components' slopes (times the "
+             "numeric multiplier / power of ten) to the precision the table is written in, and that a Scalar built by the REAL * and / operators from Scalars in "
+             "the component units has the same base magnitude. 35 rows that genuinely disagree are open known findings keyed by row symbol.",
+        note="the quantifier is the table (enumerated exhaustively); the claim per row is linear in the amount (LRA); grammar and prefix list are the oracle's specification",
+        ref="DESIGN.md §4 C06"),
     "C07": dict(
         text="Programs over a fresh POSC database obtain quantities through 24 creation requests (all key forms, legacy, alias, unknown captions, "
              "derived dict/list/operator forms), run one (quick) or two (thorough) operations of a 17-operation alphabet with SYMBOLIC amounts - so "
